@@ -222,7 +222,7 @@ def query_kind(case, q, W=None):
 # --------------------------------------------------------------------------------------
 
 def gen_cases(ctx, count, n_range, k_range, weakly_modes, want=("ok",), q_per=6, consts=0.05, depth=2,
-              outside_sig=0.1, max_tries=40, ties=0.0, deep=0.12, flat=0.06, conj=0.06, big=0.04):
+              outside_sig=0.1, max_tries=40, ties=0.0, deep=0.12, flat=0.06, conj=0.06, big=0.04, rekey=0.0):
     """generate cases whose base status (by brute force classification) is in `want`"""
     rng = ctx.rng
     cases = []
@@ -247,8 +247,12 @@ def gen_cases(ctx, count, n_range, k_range, weakly_modes, want=("ok",), q_per=6,
             target = rng.randint(8, 12)
             while len(conds) < target:
                 conds.append(core.gen_cond(rng, n, 1, 0.0))
+            if rng.random() < 0.5:
+                # a very specific rule: long conjunction chain as antecedent (tree height >= 5)
+                ch, lits = core.deep_chain(rng, rng.sample(range(n), 6))
+                conds.append((("a", rng.randrange(n)) if rng.random() < 0.5 else ("!", ("a", rng.randrange(n))), ch))
             rng.shuffle(conds)
-            queries = queries[:q_per]
+            queries = (core.gen_deep_pairs(rng, n, 2, conds) + list(queries))[:max(q_per, 4)] if q_per else []
         elif rng.random() < ties and n_range[1] >= 4:
             n = nq = rng.randint(max(4, n_range[0]), n_range[1])
             conds, queries = core.gen_tie_case(rng, n)
@@ -278,7 +282,11 @@ def gen_cases(ctx, count, n_range, k_range, weakly_modes, want=("ok",), q_per=6,
                 queries.append((("!", b), a))
             else:
                 queries.append(core.gen_cond(rng, nq, depth, consts))
-        case = mk_case(nq, n, list(enumerate(conds, 1)), list(enumerate(queries, 1)), weakly)
+        keys = list(range(1, len(conds) + 1))
+        if rng.random() < rekey:
+            # any distinct integer keys, one- and two-digit ones mixed, not ascending
+            keys = rng.sample(range(0, 40), len(conds))
+        case = mk_case(nq, n, list(zip(keys, conds)), list(enumerate(queries, 1)), weakly)
         info = classify(case)
         if info["status"] not in want:
             continue
